@@ -16,7 +16,8 @@ ShapeDef(t, cs, sel) ==
     [] k = 1 /\ sel % 4 = 0 -> [tag |-> "sequence", ty |-> cs[1]]
     [] k = 1 /\ sel % 4 = 1 -> [tag |-> "array", len |-> IF t % 2 = 0 THEN 0 ELSE 3, ty |-> cs[1]]      \* also the empty array: it still refers to its element type
     [] k = 1 /\ sel % 4 = 2 -> [tag |-> "compact", ty |-> cs[1]]
-    [] k = 1 /\ sel % 4 = 3 -> [tag |-> "composite", fields |-> <<F(<<"x">>, cs[1], <<"X">>, <<"fx">>)>>]
+    [] k = 1 /\ sel % 4 = 3 /\ t % 2 = 0 -> [tag |-> "composite", fields |-> <<F(<<"x">>, cs[1], <<"X">>, <<"fx">>)>>]
+    [] k = 1 /\ sel % 4 = 3 /\ t % 2 = 1 -> [tag |-> "composite", fields |-> <<>>]     \* a marker type: a leaf definition whose only reference is a type parameter
     [] k = 2 /\ sel % 4 = 0 -> [tag |-> "bitsequence", store |-> cs[1], order |-> cs[2]]
     [] k = 2 /\ sel % 4 = 1 -> [tag |-> "tuple", tys |-> <<cs[1], cs[2]>>]
     [] k = 2 /\ sel % 4 = 2 -> [tag |-> "variant", variants |->
@@ -25,7 +26,8 @@ ShapeDef(t, cs, sel) ==
     [] k = 2 /\ sel % 4 = 3 -> [tag |-> "composite", fields |-> <<F(<<"y">>, cs[2], <<>>, <<>>)>>]
     [] k = 3 -> [tag |-> "variant", variants |->
                                 << [name |-> "A", fields |-> <<F(<<>>, cs[2], <<>>, <<>>), F(<<>>, cs[3], <<"T3">>, <<>>)>>, index |-> 9, docs |-> <<>>] >>]
-ShapeParams(t, cs, sel) == IF Len(cs) = 2 /\ sel % 4 = 3
+ShapeParams(t, cs, sel) == IF Len(cs) = 1 /\ sel % 4 = 3 /\ t % 2 = 1 THEN <<[name |-> "T", ty |-> Some(cs[1])]>>
+                      ELSE IF Len(cs) = 2 /\ sel % 4 = 3
                       THEN <<[name |-> "T", ty |-> Some(cs[1])], [name |-> "U", ty |-> None]>>
                       ELSE IF Len(cs) = 2 /\ sel % 4 = 2        \* a skipped parameter BEFORE one that carries a type
                       THEN <<[name |-> "S", ty |-> None], [name |-> "T", ty |-> Some(cs[2])]>>
